@@ -247,8 +247,18 @@ static std::string showState()
     if (!g->made[x] || !g->made[y]) { e += "x"; continue; }
     Loc lx{x, -1, isD(x), g->store[x]}, ly{y, -1, isD(y), g->store[y]};
     bool eq, ne, bx, by;
-    if (lx.d) { eq = RD(lx) == RD(ly); ne = RD(lx) != RD(ly); bx = bool(RD(lx)); by = bool(RD(ly)); }
-    else { eq = RB(lx) == RB(ly); ne = RB(lx) != RB(ly); bx = bool(RB(lx)); by = bool(RB(ly)); }
+    // both through const access paths and through non-const ones: the answer must be the same
+    bool ceq, cne;
+    if (lx.d) {
+      const Ref<Node> &cx = RD(lx), &cy = RD(ly);
+      ceq = cx == cy; cne = cx != cy;
+      eq = RD(lx) == RD(ly); ne = RD(lx) != RD(ly); bx = bool(RD(lx)); by = bool(RD(ly));
+    } else {
+      const Ref<Base> &cx = RB(lx), &cy = RB(ly);
+      ceq = cx == cy; cne = cx != cy;
+      eq = RB(lx) == RB(ly); ne = RB(lx) != RB(ly); bx = bool(RB(lx)); by = bool(RB(ly));
+    }
+    if (ceq != eq || cne != ne) { e += "c"; continue; }  // const and non-const comparison disagree
     bool px = lx.d ? RD(lx).ptr != nullptr : RB(lx).ptr != nullptr;
     bool py = ly.d ? RD(ly).ptr != nullptr : RB(ly).ptr != nullptr;
     if (eq == ne || bx != px || by != py) e += "!";  // operator!= / operator bool inconsistent
